@@ -12,7 +12,7 @@ import (
 
 var serveExplain = map[string]string{
 	"C02": "Structural necessary conditions in the server's per-connection loop, decided for every path of the loop by exhaustive exploration of a finite abstraction (booleans, nil-ness, rule event bits): (R1) a request with 'Expect: 100-continue' whose body was not read (ExpectHandler / ContinueHandler rejection) is answered with Connection: close and never followed by another iteration; (R2) on every path from the handler to the next iteration the code has established, on the request that was actually served (not on a ctx swapped in by the timeout path), that there is no connection-backed body stream or that requestStream.fullyRead() is true - otherwise the close decision is true; the stream object is only released after that. (R3) a length-limited reader over the connection that is handed to a parser which may stop early (multipart pre-parse) is drained before success is reported; (R4) the flag behind fullyRead() for chunked bodies is raised only after the trailer section was read and its error examined, in every function that sets it. Not decided: the exact byte offset at which the next request starts for all inputs.",
-	"C10": "Structural necessary conditions of the keep-alive decision in the serve loop: (R1) the condition guarding SetConnectionClose depends (through phis, && / ||, and helper functions) on each documented source: DisableKeepalive, request and response Connection: close, MaxRequestsPerConn, CloseOnShutdown+stop, Expect/Continue rejection, unread streamed body; (R2) on every path: decision true => Connection: close is set on the response object that is written and no further iteration follows; decision false on a non-HTTP/1.1 request => Connection: keep-alive is set; (R3) the decision does not read per-request bookkeeping from a ctx that was swapped in after the handler (timeout path). Not decided: token/case handling of the Connection header value, client side reuse.",
+	"C10": "Structural necessary conditions of the keep-alive decision in the serve loop: (R1) the condition guarding SetConnectionClose depends (through phis, && / ||, and helper functions) on each documented source: DisableKeepalive, request and response Connection: close, MaxRequestsPerConn, CloseOnShutdown+stop, Expect/Continue rejection, unread streamed body; (R2) on every path: decision true => Connection: close is set on the response object that is written and no further iteration follows; decision false on a non-HTTP/1.1 request => Connection: keep-alive is set; (R2d) the loop is left after a written response, on the server's own decision, only when that response carried Connection: close; (R3) the decision does not read per-request bookkeeping from a ctx that was swapped in after the handler (timeout path); (R4) every comparison of a header value with the 'close' token - in the request and response head parsers and in the header setters - is made by a case-insensitive, list-aware matcher, never by an exact byte comparison, so 'Connection: Close' and 'keep-alive, close' count as close on both the server and the client side. Not decided: what the matcher accepts as token separators, client side reuse beyond the parsed flag.",
 	"C11": "Structural necessary conditions of 'no state leaks between requests': (E7) every leaf field of Request, Response, RequestHeader, ResponseHeader, URI, Args, Cookie and RequestCtx is assigned (or known nil, or reset through its pointee) on every path of the type's reset method including callees, or is in a table of reasoned exemptions (scratch buffers, configuration, self pointers) - a newly added field is a violation until reset or exempted; (R-loop) every variable of the serve loop that survives an iteration is re-assigned before it is read in a later iteration on every path, or the loop provably ends; (R-reset) every path from the handler to the next iteration passes Request.Reset and Response.Reset; (R-ctx) every field of RequestCtx that a handler can set through an exported method and that the serve loop reads (hijack handler, no-response switch, timeout response) is cleared, found zero, or left behind with a replaced ctx on every path to the next request - neither Request.Reset nor Response.Reset touches them. Not decided: that getters return exactly what the current request sent.",
 	"C14": "The sequence of ConnState values the serve loop reports, decided on every path of the loop as an automaton: StateActive only follows New/Idle, StateIdle only follows Active, the handler and the response write happen in Active, an iteration that continues ends in Idle, and StateActive is only reported on a path on which a read of at least one byte succeeded; (R3) every function that runs the serve loop itself and reports states (ServeConn) reports StateNew before serving and, on every path to its return after serving, exactly one terminal state - StateHijacked exactly when the loop returned errHijacked, StateClosed otherwise. Not decided: the reports made by the worker pool (C13.R2 decides its terminal action) and cross-goroutine ordering.",
 	"C15": "Structural necessary conditions of graceful shutdown inside the serve loop, on every path: the per-connection idle marker is zero while the handler runs (so Shutdown's idle closer cannot close a busy connection), it is set non-zero after the response before the connection waits for the next request, the stop flag is tested after every response, and (R5) a response that was written into the connection writer is flushed before the writer is dropped whenever the serve function ends with a nil result (shutdown, client stopped sending) - so no answered request loses its response on a graceful end. Not decided: Shutdown's own listener/poll loop, liveness, interleavings.",
@@ -40,6 +40,9 @@ func init() {
 			}
 			if id == "C14" {
 				connStateCallersRule(p, r)
+			}
+			if id == "C10" {
+				closeTokenRule(p, r)
 			}
 			if id == "C02" {
 				limitedReaderDrainRule(p, r)
@@ -802,3 +805,32 @@ func timeoutSemaphoreRule(p *Prog, r *Report) {
 	r.Floor("R6", "releases of Server.concurrencyCh", nrel, 1)
 }
 
+
+// C10.R4: 'close' is a case-insensitive token that may be one element of a list.
+func closeTokenRule(p *Prog, r *Report) {
+	n := 0
+	for _, fn := range p.funcsIn("") {
+		allCalls(fn, func(b *ssa.BasicBlock, c ssa.CallInstruction) {
+			f := c.Common().StaticCallee()
+			if f == nil {
+				return
+			}
+			uses := false
+			for _, a := range c.Common().Args {
+				if globalOf(a) == "strClose" {
+					uses = true
+				}
+			}
+			res := f.Signature.Results()
+			if !uses || res.Len() != 1 || !isBool(res.At(0).Type()) {
+				return
+			}
+			n++
+			exact := f.Pkg != nil && f.Pkg.Pkg.Path() == "bytes" && f.Name() == "Equal"
+			tolerant := inModule(f) && (f.Name() == "caseInsensitiveCompare" || f.Name() == "hasHeaderValue")
+			r.Check("R4", fmt.Sprintf("%s: the value is matched against the 'close' token case-insensitively (%s)", funcName(fn), shortType(calleeName(c))), !exact && tolerant, p.Pos(c.Pos()),
+				"an exact byte comparison with 'close': 'Connection: Close' (or a token list containing close) is not recognised, so the connection is kept although the peer announced it will close it, or asked for it to be closed")
+		})
+	}
+	r.Floor("R4", "comparisons of header values with the 'close' token", n, 4)
+}
